@@ -191,9 +191,14 @@ def metaOf (j : Json) : Except String (List (String × List String)) := do
   | some (.obj m) => m.toList.mapM (fun (k, v) => do pure (k, ← strs v))
   | some _ => throw "metadata must be an object"
 
+/-- `import_default` is the schema of the fallback `Table(qualifier)` (model parameter `importDefault`).  Since the repair of D17
+    (`Table.__init__` resolves `Schema()` when it is called) it is the call‑time default schema unless the request says
+    otherwise (a request can still pin it, to evaluate the unrepaired behaviour). -/
 def configOf (j : Json) : Runner.Config :=
-  { cfgDefault := (j.getObjValAs? String "default_schema").toOption.getD "",
-    importDefault := (j.getObjValAs? String "import_default").toOption.getD Gen.Const.schemaUnknown,
+  let cfg := (j.getObjValAs? String "default_schema").toOption.getD ""
+  { cfgDefault := cfg,
+    importDefault := (j.getObjValAs? String "import_default").toOption.getD
+      (Walk.defaultSchema { cfgDefault := cfg }),
     silent := (j.getObjValAs? Bool "silent").toOption.getD false,
     ro := { upper := (j.getObjValAs? Bool "upper").toOption.getD false },
     revStar := (j.getObjValAs? Nat "rev_star").toOption.getD 0 }
